@@ -153,6 +153,7 @@ func checkMain(repo, verifRoot, prop, tier, replayFile string, verbose bool) int
 	solverWins := map[string]int{}
 	solverTime := 0.0
 	var boundedNotes []string
+	leanDone := false
 	ownUnits := map[string]bool{} // units of ownership targets: every ownership obligation in them is claimed, baseline or not
 
 	// one engine per module (registry is global: reset between modules)
@@ -226,24 +227,22 @@ func checkMain(repo, verifRoot, prop, tier, replayFile string, verbose bool) int
 			}
 		}
 		for _, x := range pc.Extra {
-			if strings.HasPrefix(x, "lean:") && mod == "mpc/bls" {
-				// the Lean file speaks about the spec functions of both copies (bls here; ps compared textually below via its own engine)
+			if strings.HasPrefix(x, "lean:") && (mod == "mpc/bls" || mod == "mpc/ps") {
+				// the Lean file speaks about the spec functions of both copies: the kernel check runs once per property run (with
+				// the first of the two modules), the quoted spec-function texts are compared with every module's contract file
 				var pkgs []string
 				for _, t := range byModule[mod] {
 					pkgs = append(pkgs, t.Pkg)
 				}
-				leanTimeout := 600.0
-				if err := e.leanObligations(verifRoot, x[5:], pkgs[:1], leanTimeout); err != nil {
-					contractErrs = append(contractErrs, x+": "+err.Error())
+				if !leanDone {
+					leanDone = true
+					if err := e.leanObligations(verifRoot, x[5:], pkgs[:1], 600.0); err != nil {
+						contractErrs = append(contractErrs, x+": "+err.Error())
+					}
+					funcsUnderContract[x] = true
+				} else {
+					e.bridgeOnly(verifRoot, x[5:], pkgs[:1])
 				}
-				funcsUnderContract[x] = true
-			}
-			if strings.HasPrefix(x, "lean:") && mod == "mpc/ps" {
-				var pkgs []string
-				for _, t := range byModule[mod] {
-					pkgs = append(pkgs, t.Pkg)
-				}
-				e.bridgeOnly(verifRoot, x[5:], pkgs[:1])
 			}
 			if strings.HasPrefix(x, "bounded:choose") && (mod == "mpc/bls" || mod == "mpc/ps") {
 				bound := 12
